@@ -24,7 +24,7 @@ func configs() []*config {
 				{name: "root.p50.d1", platform: "P1", prio: 50, dur: 1},
 			},
 			maxTicks: 1,
-			depth:    map[string]int{"quick": 5, "thorough": 8},
+			depth:    map[string]int{"quick": 5, "thorough": 7}, shards: 4,
 		},
 		{
 			// Fairness between (nested) invocations: score, least
@@ -39,7 +39,7 @@ func configs() []*config {
 				{name: "I2X.p50", platform: "P1", corr: "I2", tool: "X", prio: 50, dur: 1},
 			},
 			maxTicks: 1,
-			depth:    map[string]int{"quick": 5, "thorough": 8},
+			depth:    map[string]int{"quick": 5, "thorough": 7}, shards: 4,
 		},
 		{
 			// Per-level stickiness windows (limits 3 ticks at level 0, 1 tick
@@ -47,14 +47,14 @@ func configs() []*config {
 			// of that level.
 			name: "c04-sticky", props: []string{"C04"},
 			predeclared: onePQ(3, 1),
-			workers:     []workerDecl{w(1, "", "P1", 0)},
+			workers:     []workerDecl{w(1, "", "P1", 0), w(2, "", "P1", 0)},
 			execs: []execDecl{
 				{name: "I1X", platform: "P1", corr: "I1", tool: "X", prio: 0, dur: 1},
 				{name: "I1Y", platform: "P1", corr: "I1", tool: "Y", prio: 0, dur: 1},
 				{name: "I2X", platform: "P1", corr: "I2", tool: "X", prio: 0, dur: 1},
 			},
-			maxTicks: 3,
-			depth:    map[string]int{"quick": 6, "thorough": 9},
+			maxTicks: 2,
+			depth:    map[string]int{"quick": 5, "thorough": 7}, shards: 4,
 		},
 		{
 			// Same, started from a state in which the worker's level-0 and
@@ -66,11 +66,136 @@ func configs() []*config {
 			execs: []execDecl{
 				{name: "I1X", platform: "P1", corr: "I1", tool: "X", prio: 0, dur: 1},
 				{name: "I1Y", platform: "P1", corr: "I1", tool: "Y", prio: 0, dur: 1},
+				{name: "I1X.p50", platform: "P1", corr: "I1", tool: "X", prio: 50, dur: 1},
 				{name: "I2X", platform: "P1", corr: "I2", tool: "X", prio: 0, dur: 1},
 			},
 			prefix:   []string{"W:1", "I1X", "tick"},
 			maxTicks: 3,
-			depth:    map[string]int{"quick": 5, "thorough": 8},
+			depth:    map[string]int{"quick": 5, "thorough": 7}, shards: 4,
+		},
+		{
+			// Started from a state in which the level-0 window (2 ticks) of
+			// W:1 has just expired although it kept serving invocation I1,
+			// while I2 has been waiting since t=0.
+			name: "c04-sticky-warm2", props: []string{"C04"},
+			predeclared: onePQ(2, 1),
+			workers:     []workerDecl{w(1, "", "P1", 0)},
+			execs: []execDecl{
+				{name: "I1X", platform: "P1", corr: "I1", tool: "X", prio: 0, dur: 1},
+				{name: "I1Y", platform: "P1", corr: "I1", tool: "Y", prio: 0, dur: 1},
+				{name: "I2X", platform: "P1", corr: "I2", tool: "X", prio: 0, dur: 1},
+			},
+			prefix:   []string{"W:1", "I1X", "I2X", "tick", "I1Y", "W:1", "tick"},
+			maxTicks: 3,
+			depth:    map[string]int{"quick": 4, "thorough": 7}, shards: 2,
+		},
+		{
+			// Reversed limits: short level-0 window, long level-1 window.
+			name: "c04-sticky-rev", props: []string{"C04"},
+			predeclared: onePQ(1, 3),
+			workers:     []workerDecl{w(1, "", "P1", 0)},
+			execs: []execDecl{
+				{name: "I1X", platform: "P1", corr: "I1", tool: "X", prio: 0, dur: 1},
+				{name: "I1Y", platform: "P1", corr: "I1", tool: "Y", prio: 0, dur: 1},
+				{name: "I1X.p50", platform: "P1", corr: "I1", tool: "X", prio: 50, dur: 1},
+				{name: "I2X", platform: "P1", corr: "I2", tool: "X", prio: 0, dur: 1},
+			},
+			prefix:   []string{"W:1", "I1X", "tick", "tick", "tick"},
+			maxTicks: 4,
+			depth:    map[string]int{"quick": 5, "thorough": 7}, shards: 4,
+		},
+		{
+			// Routing: nested instance name prefixes, two platforms,
+			// predeclared and worker-created queues, workers that stop
+			// synchronizing (queue removal and re-creation), start-up grace
+			// period of 2 ticks.
+			name: "c05-route", props: []string{"C05"},
+			predeclared: []pqDecl{{prefix: "a", platform: "P1", sizeClasses: []uint32{0}}},
+			workers:     []workerDecl{w(1, "", "P1", 0), w(2, "a/b", "P1", 0), w(3, "a", "P2", 0)},
+			execs: []execDecl{
+				{name: "x:/P1", inst: "", platform: "P1", corr: "I1", dur: 1},
+				{name: "x:a/P1", inst: "a", platform: "P1", corr: "I1", dur: 1},
+				{name: "x:a/b/c/P1", inst: "a/b/c", platform: "P1", corr: "I1", dur: 1},
+				{name: "x:a/bb/P2", inst: "a/bb", platform: "P2", corr: "I1", dur: 1},
+				{name: "x:x/P2", inst: "x", platform: "P2", corr: "I1", dur: 1},
+			},
+			wt: 1, qt: 2, maxTicks: 5,
+			depth: map[string]int{"quick": 5, "thorough": 7}, shards: 8,
+			probes: []string{"", "a", "a/b", "a/b/c", "a/bb", "ab", "x"},
+		},
+		{
+			// Removal of worker-created platform queues in every order
+			// (the list of platform queues is kept contiguous by moving the
+			// last one into the freed slot; the trie must follow).
+			name: "c05-remove", props: []string{"C05"},
+			workers: []workerDecl{w(1, "", "P1", 0), w(2, "a", "P1", 0), w(3, "a/b", "P1", 0), w(4, "a", "P2", 0)},
+			execs: []execDecl{
+				{name: "x:a/b/P1", inst: "a/b", platform: "P1", corr: "I1", dur: 1},
+			},
+			wt: 1, qt: 1, maxTicks: 6,
+			depth: map[string]int{"quick": 6, "thorough": 8}, shards: 8,
+			probes: []string{"", "a", "a/b", "a/b/c", "b"},
+		},
+		{
+			// Size classes: predeclared {1,4}, worker-created class 2 that
+			// disappears again, scripted selector picking index 0/1/2,
+			// failures retried on the largest class.
+			name: "c05-sizeclass", props: []string{"C05"}, fail: true,
+			predeclared: []pqDecl{{prefix: "", platform: "P1", sizeClasses: []uint32{1, 4}}},
+			workers:     []workerDecl{w(1, "", "P1", 1), w(2, "", "P1", 2), w(3, "", "P1", 4)},
+			execs: []execDecl{
+				{name: "x.sc0", platform: "P1", corr: "I1", dur: 1, scIdx: 0},
+				{name: "x.sc1", platform: "P1", corr: "I1", dur: 1, scIdx: 1},
+				{name: "x.sc2", platform: "P1", corr: "I1", dur: 1, scIdx: 2},
+			},
+			wt: 1, qt: 1, maxTicks: 3,
+			depth: map[string]int{"quick": 5, "thorough": 7}, shards: 4,
+			probes: []string{"", "a"},
+		},
+		{
+			// Drains and terminating workers.
+			name: "c05-drain", props: []string{"C05", "C04"},
+			predeclared: onePQ(),
+			workers:     []workerDecl{w(1, "", "P1", 0), w(2, "", "P1", 0)},
+			execs: []execDecl{
+				{name: "x1", platform: "P1", corr: "I1", dur: 1},
+			},
+			drains: []drainDecl{
+				{name: "d:w1", platform: "P1", pattern: map[string]string{"host": "w1"}},
+				{name: "d:all", platform: "P1", pattern: map[string]string{}},
+			},
+			terms: []termDecl{{name: "term:w2", pattern: map[string]string{"host": "w2"}}},
+			depth: map[string]int{"quick": 5, "thorough": 7}, shards: 4,
+			probes: []string{""},
+		},
+		{
+			// Listing order (ListInvocationChildren QUEUED / ListQueuedOperations)
+			// as a letter: the calls re-sort the heaps.
+			name: "c04-list", props: []string{"C04"}, mixedRouter: true, list: true,
+			predeclared: onePQ(),
+			workers:     []workerDecl{w(1, "", "P1", 0)},
+			execs: []execDecl{
+				{name: "I1.p0.d1", platform: "P1", corr: "I1", prio: 0, dur: 1},
+				{name: "I1.p50.d2", platform: "P1", corr: "I1", prio: 50, dur: 2},
+				{name: "I2.p0.d2", platform: "P1", corr: "I2", prio: 0, dur: 2},
+				{name: "I2Y.p50.d1", platform: "P1", corr: "I2", tool: "Y", prio: 50, dur: 1},
+			},
+			maxTicks: 1,
+			depth:    map[string]int{"quick": 5, "thorough": 7}, shards: 4,
+		},
+		{
+			// Priorities 0 and 100: scores can be mathematically equal
+			// across priorities (2*1 == 1*2); such near-ties are accepted
+			// either way.
+			name: "c04-prio100", props: []string{"C04"},
+			predeclared: onePQ(),
+			workers:     []workerDecl{w(1, "", "P1", 0), w(2, "", "P1", 0)},
+			execs: []execDecl{
+				{name: "I1X.p0", platform: "P1", corr: "I1", tool: "X", prio: 0, dur: 1},
+				{name: "I2X.p100", platform: "P1", corr: "I2", tool: "X", prio: 100, dur: 1},
+				{name: "I3X.p100", platform: "P1", corr: "I3", tool: "X", prio: 100, dur: 1},
+			},
+			depth: map[string]int{"quick": 6, "thorough": 8}, shards: 4,
 		},
 	}
 }
